@@ -609,6 +609,7 @@ def main():
                     corr_broken.append({"stream": name, "line": ln, "op": op, "impl": im, "model": mo})
             if hooks:
                 hooks(prop, od, name, corr_broken, io_fails, log)
+                stats_all += cfg.pop("_extra_stats", [])   # statistics of an extra stream the hook ran
 
     # ---------------- 4. search for a concrete failing input when something broke
     searched = 0
@@ -677,7 +678,7 @@ def main():
     distinct = sum(int(s.get("distinct_nontrivial", 0)) for s in stats_all)
     samples = []
     for s in stats_all:
-        samples += s.get("samples", [])[:6]
+        samples += (s.get("samples") or [])[:6]
     dist = {}
     for s in stats_all:
         for k, v in (s.get("distribution") or {}).items():
